@@ -2,10 +2,10 @@ SPECIFICATION Spec
 CONSTANTS
   Vars = {x, y}
   MaxG = 2
-  Strong = TRUE
-  Ops = {"compose", "merge"}
+  Strong = FALSE
+  Ops = {"merge"}
 SYMMETRY Sym
-INVARIANT Keeps
+INVARIANT ExactM
 INVARIANT WF
 INVARIANT ExcOK
 CHECK_DEADLOCK FALSE
